@@ -14,6 +14,12 @@ namespace fsim {
 Arena g_arena;
 WindowCtl g_win;
 static volatile uint64_t g_current_run = 0;
+volatile uint8_t g_scrub_byte = 0;
+__attribute__((noinline)) void scrub_stack(uint8_t byte) {
+    volatile uint8_t buf[48 * 1024];
+    memset((void *)buf, byte, sizeof buf);
+    __asm__ volatile("" ::: "memory");
+}
 static volatile int g_in_run = 0;
 
 // ================================================================ poison
